@@ -129,6 +129,22 @@ ADD6 = {
  "C13": " Round 6: only the files of a directory are listed, and is_file() is the only test on a readable entry (R-C13-dir).",
  "C15": " Round 6: an encoded token list is never edited in place (R-C15-nodrop).",
 }
+ADD7 = {
+ "C01": " Round 7: R-C01-scale (duration scaling under the 'same values' clause).",
+ "C02": " Round 7: inline enumerations checked for duplicates (R-C02-enumunique), every task reference checked (R-C02-taskrefs), every type-naming initializer looked up (R-C02-typeuses), rebuilt nodes of the name resolver fold every expression field (R-C02-foldall).",
+ "C03": " Round 7: allow_* options tested in the right sense (R-C03-optsense); the cached parse result is never borrowed mutably (R-C03-cache).",
+ "C04": " Round 7: recursive lexer cycles listed by the token kinds they produce, each with what was measured at the 64 KiB bound (R-C04-recursion; the block-comment cycle is a known finding).",
+ "C05": " Round 7: range ends have their own line counter (R-C05-rangeend); file numbers are the ids SimpleFiles::add returned (R-C05-fileidx).",
+ "C06": " Round 7: the fallback file id is not assigned in hash order (R-C06-hash clause); sorted_ids returns toposort's order (R-C06-toporder).",
+ "C07": " Round 7: whether a declaration is walked does not depend on the graph built so far (R-C07-edgeguard walk clause).",
+ "C08": " Round 7: membership and prefix tests on token text count as case-sensitive comparisons (R-C08-text).",
+ "C09": " Round 7: R-C09-prestep.",
+ "C10": " Round 7: a writer for T does not merge a nested T into its parent (R-C10-restructure).",
+ "C11": " Round 7: diagnostics are never put into a keyed container (R-C11-nodedup).",
+ "C12": " Round 7: nothing in server mode prints to stdout (R-C12-stdout); R-C12-recursion.",
+ "C13": " Round 7: enumerate_files fails only for file-system failures (R-C13-dir); no panic-capable construct in cli.rs/main (R-C13-panic).",
+ "C15": " Round 7: a `//` comment token excludes its line break (R-C15-linecomment); R-C15-comment.",
+}
 NA_REASON = "check not built yet (round 1 in progress); see DESIGN.md section 3 for the planned static rules"
 props = [json.loads(l) for l in open("/verif/properties.jsonl")]
 checks = []
@@ -143,7 +159,7 @@ for p in props:
         "evidence_file": "/verif/evidence/%s.json" % p["id"],
         "replay_cmd_template": "./check %s --replay {path}" % p["id"],
         "engine": "mirfacts+rules",
-        "level_claimed": {"category": "other", "text": c["text"] + ADD.get(p["id"], "") + ADD3.get(p["id"], "") + ADD4.get(p["id"], "") + ADD5.get(p["id"], "") + ADD6.get(p["id"], ""), "design_ref": c["design"] + ", R2, R3, R4, R5, R6"},
+        "level_claimed": {"category": "other", "text": c["text"] + ADD.get(p["id"], "") + ADD3.get(p["id"], "") + ADD4.get(p["id"], "") + ADD5.get(p["id"], "") + ADD6.get(p["id"], "") + ADD7.get(p["id"], ""), "design_ref": c["design"] + ", R2, R3, R4, R5, R6, R7"},
         "level_note": NOTE,
         "technique": c["technique"],
     })
